@@ -32,6 +32,7 @@
 
 
 #include <algorithm>
+#include <map>
 #include <cfloat>
 
 #include "libavoid/shape.h"
@@ -433,6 +434,38 @@ static bool sweepVisible(SweepEdgeList& T, const PointPair& point,
 }
 
 
+// The centre point of the sweep lies on the boundary of the (convex) obstacle
+// that shapeVert is a vertex of.  Returns true if the target point also lies
+// on the boundary of this obstacle and the line between the two is not along
+// one of its sides, i.e., it is a chord through the interior of the obstacle.
+static bool chordThroughBorderObstacle(const Point& centerPoint,
+        const Point& targetPoint, VertInf *shapeVert)
+{
+    bool targetOnBorder = false;
+    bool alongSide = false;
+    VertInf *k = shapeVert;
+    do
+    {
+        const Point& a = k->point;
+        const Point& b = k->shNext->point;
+        if ((targetPoint == a) || pointOnLine(a, b, targetPoint))
+        {
+            targetOnBorder = true;
+        }
+        if ((vecDir(a, b, centerPoint) == 0) &&
+                (vecDir(a, b, targetPoint) == 0))
+        {
+            // Both are on the line of this side.
+            alongSide = true;
+        }
+        k = k->shNext;
+    }
+    while (k != shapeVert);
+
+    return targetOnBorder && !alongSide;
+}
+
+
 static void vertexSweep(VertInf *vert)
 {
     Router *router = vert->_router;
@@ -508,6 +541,8 @@ static void vertexSweep(VertInf *vert)
         }
     }
     std::set<unsigned int> onBorderIDs;
+    // A vertex of each obstacle that has centerPoint on its boundary.
+    std::map<unsigned int, VertInf *> onBorderVerts;
 
     // Add edges to T that intersect the initial ray.
     SweepEdgeList e;
@@ -529,11 +564,20 @@ static void vertexSweep(VertInf *vert)
                 pointOnLine(kPrev->point, k->point, centerInf->point))
         {
             onBorderIDs.insert(k->id.objID);
+            onBorderVerts[k->id.objID] = k;
         }
         if (kNext && (kNext != centerInf) &&
                 pointOnLine(kNext->point, k->point, centerInf->point))
         {
             onBorderIDs.insert(k->id.objID);
+            onBorderVerts[k->id.objID] = k;
+        }
+        if (kPrev && kNext && (k->point == centerInf->point))
+        {
+            // centerPoint is at a corner of this obstacle (pointOnLine()
+            // only tests the open segments), so it is on its boundary too.
+            onBorderIDs.insert(k->id.objID);
+            onBorderVerts[k->id.objID] = k;
         }
         if (kPrev && (kPrev != centerInf) && 
                 (vecDir(centerInf->point, xaxis, kPrev->point) == AHEAD))
@@ -589,6 +633,25 @@ static void vertexSweep(VertInf *vert)
         // Check visibility.
         int blocker = 0;
         bool currVisible = sweepVisible(e, *t, onBorderIDs, &blocker);
+        if (currVisible)
+        {
+            // The edges of an obstacle that end at the target point are
+            // ignored above, as are the edges that start at centerPoint.
+            // So a target on the boundary of an obstacle that centerPoint
+            // is also on the boundary of has to be checked separately: such
+            // a line is only free if it runs along a side of the obstacle.
+            for (std::map<unsigned int, VertInf *>::const_iterator it =
+                    onBorderVerts.begin(); it != onBorderVerts.end(); ++it)
+            {
+                if (chordThroughBorderObstacle(centerPoint, currPt,
+                            it->second))
+                {
+                    currVisible = false;
+                    blocker = (int) it->first;
+                    break;
+                }
+            }
+        }
 
         bool cone1 = true, cone2 = true;
         if (!(centerID.isConnPt()))
